@@ -828,6 +828,31 @@ var rR13 = RuleRef{Name: "R13", Doc: "reply-kind provenance: line-framed reply c
 							ranged = true
 						}
 					}
+					// a visitor: r.each(func(elem) { .. elem.ToBytes() .. }) where each ranges over recv.data and hands
+					// every element to its function argument
+					if cf := callee(x); cf != nil && cf.Signature.Recv() != nil && len(x.Call.Args) == 2 && canon(x.Call.Args[0]) == "recv" && len(cf.Blocks) > 0 {
+						visits := false
+						for _, b2 := range cf.Blocks {
+							for _, in2 := range b2.Instrs {
+								if c2, ok := in2.(*ssa.Call); ok {
+									if prm, ok := c2.Call.Value.(*ssa.Parameter); ok && len(cf.Params) == 2 && prm == cf.Params[1] && len(c2.Call.Args) == 1 && strings.HasPrefix(canon(c2.Call.Args[0]), "recv.data[") {
+										visits = true
+									}
+								}
+							}
+						}
+						if mc, ok := x.Call.Args[1].(*ssa.MakeClosure); ok && visits {
+							if cl, ok := mc.Fn.(*ssa.Function); ok && len(cl.Params) == 1 {
+								for _, b2 := range cl.Blocks {
+									for _, in2 := range b2.Instrs {
+										if c2, ok := in2.(*ssa.Call); ok && c2.Call.IsInvoke() && c2.Call.Method.Name() == "ToBytes" && c2.Call.Value == ssa.Value(cl.Params[0]) {
+											ranged = true
+										}
+									}
+								}
+							}
+						}
+					}
 				}
 			}
 		}
@@ -934,13 +959,65 @@ var rR7 = RuleRef{Name: "R7", Doc: "every path of every registered executor retu
 		check(fn)
 		done[fn] = true
 	}
-	// helpers that produce an executor's reply (static callees returning resp.RedisData)
+	// helpers that produce an executor's reply (static callees returning resp.RedisData). A helper whose result the
+	// executor only ever returns behind a `result != nil` test reports "nothing to object" with nil (a validation
+	// phase): its nil is not a reply and it is not held to the rule
+	guardedOnly := func(call *ssa.Call) bool {
+		if call.Referrers() == nil {
+			return false
+		}
+		used := false
+		for _, r := range *call.Referrers() {
+			switch x := r.(type) {
+			case *ssa.DebugRef:
+			case *ssa.BinOp:
+				if !(x.Op == token.EQL || x.Op == token.NEQ) || !(isNilConst(x.X) || isNilConst(x.Y)) {
+					return false
+				}
+			case *ssa.Return, *ssa.Store:
+				if st, isSt := r.(*ssa.Store); isSt {
+					// the result variable of a function with deferred calls
+					if _, isCell := st.Addr.(*ssa.Alloc); !isCell || st.Val != ssa.Value(call) {
+						return false
+					}
+				}
+				used = true
+				// the return must sit behind the non-nil edge of a test of this very value
+				blk := r.Block()
+				okEdge := false
+				for d := blk; d != nil && d.Idom() != nil; d = d.Idom() {
+					id := d.Idom()
+					if len(d.Preds) != 1 || d.Preds[0] != id {
+						continue
+					}
+					cond, neg, ok := branchCond(id, d)
+					if !ok {
+						continue
+					}
+					if bo, ok := cond.(*ssa.BinOp); ok && (bo.X == ssa.Value(call) || bo.Y == ssa.Value(call)) && (isNilConst(bo.X) || isNilConst(bo.Y)) {
+						if (bo.Op == token.NEQ) != neg {
+							okEdge = true
+						}
+					}
+				}
+				if !okEdge {
+					return false
+				}
+			default:
+				return false
+			}
+		}
+		return used
+	}
 	for _, fn := range c.Facts.SortedExecutors() {
 		for _, b := range fn.Blocks {
 			for _, in := range b.Instrs {
 				if call, ok := in.(*ssa.Call); ok {
 					if cf := callee(call); cf != nil && firstParty(cf) && pkgRel(cf) == "memdb" && !done[cf] && cf.Signature.Results().Len() == 1 {
 						if n, ok := cf.Signature.Results().At(0).Type().(*types.Named); ok && n.Obj().Name() == "RedisData" {
+							if guardedOnly(call) {
+								continue
+							}
 							done[cf] = true
 							check(cf)
 						}
